@@ -31,9 +31,13 @@ def subject(classes, cap_max=4):
         if cls == "SlottedBeltStore":
             s["delay"] = [1, 0.5, 2, 0.7][d_ix % 4]
         if cls == "ContinuousConveyor":
-            geoms = [(4, 1, 1), (3, 1, 1), (2, 1, 2), (4, 2, 1), (3, 0.5, 2), (5, 1, 0.5), (2, 0.5, 1)]
+            # the last four: belt length not a whole multiple of the item length
+            geoms = [(4, 1, 1), (3, 1, 1), (2, 1, 2), (4, 2, 1), (3, 0.5, 2), (5, 1, 0.5), (2, 0.5, 1),
+                     (5, 2, 1), (7, 3, 2), (2.5, 1, 1), (3, 0.7, 1)]
             L, il, v = geoms[g_ix % len(geoms)]
             s["geometry"] = {"L": L, "il": il, "v": v, "acc": acc}
+        if trig == 2 or (trig == 3 and s.get("mode") == "LIFO"):
+            s["pallets"] = True     # the flow items of this history are (empty) pallets instead of plain items
         return s
     return st.tuples(st.integers(0, 63), st.integers(0, 7), st.integers(0, 1), st.integers(0, 9),
                      st.integers(0, 9), st.integers(0, 3), st.integers(0, 2), st.integers(0, 1),
@@ -69,12 +73,14 @@ def op_strategy(weights):
             return ["settle"]
         if k == "adv":
             return ["adv", b % 8]
+        if k == "peek":
+            return ["peek", a % 3]
         if k == "probe_put":
             return ["probe_put"]
         if k == "probe_get":
             return ["probe_get"]
         if k == "mis":
-            return ["mis", b % 9, a % 4, c % 6, (b // 9) % 2]
+            return ["mis", b % 10, a % 4, c % 6, (b // 10) % 2]
         raise ValueError(k)
     return st.tuples(st.integers(0, n - 1), st.integers(0, 11), st.integers(-2, 2), st.integers(0, 41),
                      st.integers(0, 11)).map(build)
@@ -105,6 +111,33 @@ def segment_strategy(weights, macros, extra=0):
             for i in range(3):
                 seg.append(["rg", a % 3, 0, 0])
                 seg.append(["get", 0])
+            return seg
+        if m == 9:      # fully booked by grants that are not used yet, one more waiter, then a granted one is withdrawn: the waiter
+            # must get the place at once (no retrieval request is around to repair anything)
+            seg = [["rp", (a + i) % 3, 0] for i in range(5)]
+            seg += [["cp", b % 4], ["settle"], ["put", 0, 0, c % 3], ["put", 0, 0, 0], ["rp", a % 3, 0], ["cp", 0], ["settle"]]
+            return seg
+        if m == 8:      # queue churn: three waiters, two of them leave (withdrawn or served), a newcomer arrives, then the
+            # resource is freed step by step: the remaining old waiter must be served before the newcomer
+            if c % 2 == 0:      # space side: fill the store first (surplus requests simply wait)
+                seg = []
+                for i in range(2):
+                    seg += [["rp", i % 3, 0], ["put", 0, 0, (b >> i) % 3]]
+                seg += [["adv", 7], ["rp", a % 3, 0], ["rp", (a + 1) % 3, 0], ["rp", (a + 2) % 3, 0]]
+                if b % 2 == 0:
+                    seg += [["cp", 0], ["cp", 0]]
+                else:
+                    seg += [["rg", 0, 0, 0], ["get", 0], ["put", 0, 0, 0], ["rg", 0, 0, 0], ["get", 0], ["put", 0, 0, 0], ["adv", 7]]
+                seg += [["rp", (a + k) % 3, 0], ["rg", 1, 0, 0], ["get", 0], ["settle"], ["put", 0, 0, 0],
+                        ["rg", 1, 0, 0], ["get", 0], ["settle"], ["put", 0, 0, 0]]
+                return seg
+            seg = [["rg", a % 3, 0, 0], ["rg", (a + 1) % 3, 0, 0], ["rg", (a + 2) % 3, 0, 0]]
+            if b % 2 == 0:
+                seg += [["cg", 0], ["cg", 0]]
+            else:
+                seg += [["rp", 0, 0], ["put", 0, 0, 0], ["rp", 0, 0], ["put", 0, 0, 0], ["adv", 7], ["get", 0], ["get", 0]]
+            seg += [["rg", (a + k) % 3, 0, 0], ["rp", 1, 0], ["put", 0, 0, 0], ["adv", 7], ["get", 0],
+                    ["rp", 1, 0], ["put", 0, 0, 0], ["adv", 7], ["get", 0]]
             return seg
         if m == 7:      # ONE process holds several grants on one side, retires one that is not its oldest (uses or withdraws
             # it), presents the dead token again (only C07 executes "mis"), then uses the others
